@@ -371,6 +371,7 @@ def check(P, rep):
                 rt = norm(g.term_local(root, bi, len(b['st']), 0))
                 rep.check(bal_of(rt, g.P(1)), 'C12.R3', 'balance:result-term', 'balance() returns the stored balance of id or 0', entry_id(g), fmt(rt)[:200])
         rep.check(not state_effects(g), 'C12.R3', 'balance:pure', 'balance() changes nothing', entry_id(g))
+    check_ttl_extensions(P, rep, 'C12.R3', CN, ['approve', 'balance', 'burn', 'burn_from', 'transfer', 'transfer_from', 'mint', 'mint_from', 'allowance'], 10)
     storage_classes(P, rep, 'C12.R3', CN, {'Balance': 'persistent', 'Allowance': 'temporary', 'Minter': 'instance'})
     require_overflow_checks(P, rep, 'C12.R2')
     # R3 who-may-write over all entries
